@@ -242,10 +242,11 @@ def run(tier, v):
         "states": states, "transitions": trans,
         "traces_validated_against_impl": len(rows),
         "samples": samples,
-        "exhaustive": True, "evaluations": len(rows), "distinct_nontrivial": len(cases),
+        "exhaustive": True, "evaluations": len(rows),
+        "distinct_nontrivial": len({json.dumps(c["c"], sort_keys=True) for c in cases if c["c"]["kind"] != "none"}),
         "rule": "one case per (variant, base, mutation) as enumerated by CasesOf in ConfigDecode.tla, each decoded as map[string]any and "
                 "map[any]any with the recording registry; every %d-th also through the CLI reader and (non-placeholder, V1/V2) with the real "
-                "constructors; distinct = distinct abstract cases" % stride,
+                "constructors; distinct_nontrivial = distinct abstract cases that carry a mutation (kind # none)" % stride,
         "cases_by_kind": kinds, "outcomes": outcomes,
         "schema_leaves": {n: len(x["leaves"]) for n, x in variants.items()},
         "map_levels_documented": {n: len(x["spec_points"]) for n, x in variants.items()},
